@@ -92,6 +92,34 @@ def classifyRow (o : Oracles) (fnames : List String) (key : Rule → Key) (sourc
     let (m, c, s) := normalizeEngine res (extractMerchantName r'.description)
     pure ⟨m, c, s, res.tags, r.amount, monthOf r.date⟩
 
+/-! ### `tally discover` on the same classification
+
+`cmd_discover` parses and classifies every source exactly as `cmd_run` does (transaction by transaction: each one
+with its own date, source, location and captured columns), keeps what is left `Unknown`, and groups it by RAW
+description — first appearance first — with a count and Σ |amount| (`desc_stats[raw]['total'] += abs(amount)`). -/
+
+/-- one classified transaction as `discover` looks at it: raw description, category, amount -/
+abbrev DTxn (α : Type) := String × String × α
+
+def discoverG (N : NumLike) (txns : List (DTxn N.α)) : List (String × (Nat × N.α)) :=
+  (txns.filter (fun t => t.2.1 == "Unknown")).foldl
+    (fun m t => Totals.upsert t.1 (0, N.zero) (fun p => (p.1 + 1, N.add p.2 (N.abs t.2.2))) m) []
+
+/-- the parsed rows of all sources, each classified on its own -/
+def classifyRows (o : Oracles) (fnames : List String) (key : Rule → Key) (sources : List (String × Val))
+    (rb : Rulebook) : List Row → Except Err (List (Row × Classified))
+  | [] => .ok []
+  | r :: rest => do
+    let c ← classifyRow o fnames key sources rb r
+    let cs ← classifyRows o fnames key sources rb rest
+    pure ((r, c) :: cs)
+
+/-- `tally discover` for parsed rows -/
+def discoverRows (o : Oracles) (fnames : List String) (key : Rule → Key) (sources : List (String × Val))
+    (rb : Rulebook) (rows : List Row) : Except Err (List (String × (Nat × Float))) :=
+  (classifyRows o fnames key sources rb rows).map fun cs =>
+    discoverG floatNum (cs.map fun rc => (rc.1.description, rc.2.category, Float.ofBits rc.2.amount))
+
 def toTotals (c : Classified) : Totals.Txn Float :=
   { amount := Float.ofBits c.amount, tags := some c.tags, merchant := c.merchant, category := c.category,
     subcategory := c.subcategory, month := c.month }
